@@ -8,10 +8,12 @@ import (
 func fingerprint(labels map[string]string) uint64 {
 	descr := [3]uint64{0, 0, 1}
 	for k, v := range labels {
-		a := k + v
-		descr[0] += city.CH64([]byte(a))
-		descr[1] ^= city.CH64([]byte(a))
-		descr[2] *= 1779033703 + 2*city.CH64([]byte(a))
+		// name and value are hashed apart: hashing their concatenation gave
+		// {a="bc"} and {ab="c"} the same fingerprint
+		a := city.CH64([]byte(k))*1099511628211 + city.CH64([]byte(v))
+		descr[0] += a
+		descr[1] ^= a
+		descr[2] *= 1779033703 + 2*a
 
 	}
 	return city.CH64(unsafe.Slice((*byte)(unsafe.Pointer(&descr[0])), 24))
